@@ -261,6 +261,7 @@ impl IntoIterator for BackoffStrategy {
         BackoffStrategyIter {
             strategy_type: self.strategy_type,
             current_attempt: 1,
+            exhausted: false,
             state: self.state,
         }
     }
@@ -271,6 +272,28 @@ pub struct BackoffStrategyIter {
     strategy_type: Strategy,
     state: BackoffStrategyState,
     current_attempt: u32,
+    exhausted: bool,
+}
+
+const NANOS_PER_SEC: u128 = 1_000_000_000;
+
+// Computes `step * factor^exponent` in whole nanoseconds, saturating at `Duration::MAX`
+// rather than panicking or wrapping when the product is too large to represent.
+fn saturating_exponential(step: Duration, factor: u64, exponent: u32) -> Duration {
+    let nanos = match (factor as u128).checked_pow(exponent) {
+        Some(multiplier) => step.as_nanos().checked_mul(multiplier),
+        // The multiplier alone exceeds any representable duration
+        None if step.is_zero() => Some(0),
+        None => None,
+    };
+
+    match nanos {
+        Some(nanos) if nanos <= Duration::MAX.as_nanos() => Duration::new(
+            (nanos / NANOS_PER_SEC) as u64,
+            (nanos % NANOS_PER_SEC) as u32,
+        ),
+        _ => Duration::MAX,
+    }
 }
 
 impl Iterator for BackoffStrategyIter {
@@ -282,17 +305,23 @@ impl Iterator for BackoffStrategyIter {
         let max_attempts = self.state.max_attempts;
         let current_attempt = self.current_attempt;
 
-        if current_attempt > max_attempts {
+        if self.exhausted || current_attempt > max_attempts {
             return None;
         }
 
         let mut next_duration = match self.strategy_type {
-            Strategy::Linear => step * current_attempt,
+            Strategy::Linear => step.saturating_mul(current_attempt),
             Strategy::Constant => step,
-            Strategy::Exponential(factor) => step.mul_f64(factor.pow(current_attempt - 1) as f64),
+            Strategy::Exponential(factor) => {
+                saturating_exponential(step, factor, current_attempt - 1)
+            }
         };
 
-        self.current_attempt += 1;
+        // `max_attempts` may be `u32::MAX`, in which case the counter cannot move past it
+        match current_attempt.checked_add(1) {
+            Some(next_attempt) => self.current_attempt = next_attempt,
+            None => self.exhausted = true,
+        }
 
         if let Some(max) = max_duration {
             next_duration = next_duration.min(max);
